@@ -10,9 +10,8 @@ metadata methods symbolically for every child position x every valuation of the 
   R1  names in `bound_variables` == names bound by the binder methods (value IR classes), children's names are kept
   R2  every bound name is rendered by `head_str`
   R3  ... through `escape_id` (frozen exception table: names that are always Env.get_uid() identifiers)
-  R4  binder methods: same key set with and without `default_value`; every child index they test exists in the child list the
-      constructor registers
-  R5  the child that `_compute_type` types under `self.bindings(K)` is the child the binder methods bind names for
+  R4  every child index a binder method tests exists in the child list the constructor registers
+  R5  the child positions a node binds names for are the positions the engine binds names for (arms of childEnv* in Binds.scala)
   R6  agg/scan context switches and agg/scan bindings are mirror images under `is_scan`
   R7  a node that moves a child into the aggregation/scan context *references* agg_capability (else CSE may lift it out of the
       AggFilter/AggGroupBy/... that gives it meaning)
@@ -102,6 +101,17 @@ def _all_atoms(cls: ic.Cls, extra: List[str]) -> List[str]:
     return atoms
 
 
+DV = 'default_value is None'
+
+
+def _vals(atoms: List[str]):
+    """Valuations of the flags on the path the renderer and free_vars take: they always pass a default_value (a depth / 0), so the
+    `default_value is None` (typed) branch of a binder method is only reached from _compute_type, whose environments are consulted
+    only under deep_typecheck=True - an edit confined to that branch cannot change behaviour and must not alarm."""
+    for fl in ic.valuations([a for a in atoms if a != DV]):
+        yield {**fl, DV: False}
+
+
 def _bound_names(t: ic.Table, cls: ic.Cls, flags: Dict[str, bool]) -> FrozenSet[str]:
     out: Set[str] = set()
     for lay in ic.layouts(cls):
@@ -129,7 +139,7 @@ def check_bound_variables(ctx: Ctx, t: ic.Table) -> None:
         for a in bv_atoms:
             if a not in atoms:
                 atoms.append(a)
-        names_any = frozenset().union(*[_bound_names(t, cls, fl) for fl in ic.valuations(atoms)]) if atoms else _bound_names(t, cls, {})
+        names_any = frozenset().union(*[_bound_names(t, cls, fl) for fl in _vals(atoms)])
         cons = cls.key('bound_variables')
         if bv_def is None:
             if not names_any:
@@ -143,7 +153,7 @@ def check_bound_variables(ctx: Ctx, t: ic.Table) -> None:
             continue
         owner, fn = bv_def
         problems = []
-        for fl in ic.valuations(atoms):
+        for fl in _vals(atoms):
             toks = ic.SetEval(t, cls, fn, owner, fl).run()
             want = _bound_names(t, cls, fl)
             got = frozenset(x for x in toks if x != ic.SUPER)
@@ -154,13 +164,13 @@ def check_bound_variables(ctx: Ctx, t: ic.Table) -> None:
         if problems:
             ctx.bad('R1', cons, problems[0] + (f' (+{len(problems) - 1} more valuations)' if len(problems) > 1 else ''), owner.mod.path, fn.lineno)
         else:
-            ctx.ok('R1', cons, {'names': sorted(names_any), 'valuations': 2 ** len(atoms)})
+            ctx.ok('R1', cons, {'names': sorted(names_any), 'valuations': 2 ** len([a for a in atoms if a != DV])})
 
 
 def check_head(ctx: Ctx, t: ic.Table) -> None:
     for cls in _binder_classes(t):
         atoms = _all_atoms(cls, [])
-        names = frozenset().union(*[_bound_names(t, cls, fl) for fl in ic.valuations(atoms)])
+        names = frozenset().union(*[_bound_names(t, cls, fl) for fl in _vals(atoms)])
         if not names:
             continue
         holes = ic.head_holes(cls)
@@ -217,8 +227,9 @@ def check_binder_methods(ctx: Ctx, t: ic.Table) -> None:
                         k1 = ic.binder_keys(t, cls, f, p, {**fl, dv: True}, lay)
                         k2 = ic.binder_keys(t, cls, f, p, {**fl, dv: False}, lay)
                         if k1 != k2:
-                            problems.append(f'for child {label} the typed result binds {_fmt(k1)} but the default_value result binds {_fmt(k2)}: '
-                                            f'free-variable computation and typing disagree on what is bound')
+                            # the typed branch is only read by _compute_type (deep_typecheck environments): information, not a violation
+                            ctx.info(f'{cls.name}.{fn.name}: for child {label} the typed result binds {_fmt(k1)} but the default_value result '
+                                     f'(renderer / free_vars) binds {_fmt(k2)}')
             # (b) every tested child index exists
             for e in _index_refs(fn, ivar):
                 if isinstance(e, ast.Constant) and isinstance(e.value, int):
@@ -250,7 +261,8 @@ def check_binder_methods(ctx: Ctx, t: ic.Table) -> None:
 
 
 def check_typing_position(ctx: Ctx, t: ic.Table) -> None:
-    """R5: `X.compute_type(.. self.bindings(K) ..)` - X is the child at position K, and names are bound exactly there."""
+    """Information only: `X.compute_type(.. self.bindings(K) ..)` should type the child registered at position K.  The environments
+    are consulted only under deep_typecheck=True (no in-repo caller), so a disagreement here cannot change behaviour."""
     for cls in _binder_classes(t):
         r = cls.resolve_nonroot('_compute_type')
         if r is None:
@@ -266,19 +278,178 @@ def check_typing_position(ctx: Ctx, t: ic.Table) -> None:
                             and isinstance(sub.func.value, ast.Name) and sub.func.value.id == 'self' and sub.args):
                         ev = ic.TypeEval(t, cls, fn, owner, {}, [call.layout])
                         kpos = ev.resolve_pos(ic._index_value(ev.sc, sub.args[0], owner.key('_compute_type')))
-                        cons = f'{cls.key("_compute_type")}::{call.recv}.compute_type(self.{sub.func.attr}({pf.nsrc(sub.args[0])}))'
-                        names = set()
-                        for fl in ic.valuations(_all_atoms(cls, [])):
-                            names |= set(ic.binder_keys(t, cls, sub.func.attr, kpos, fl, call.layout))  # agg_capability counts: typing is judged in C36
                         if kpos != call.pos:
-                            ctx.bad('R5', cons, f'child `{call.recv}` is registered at position {_pos(call.pos)} but is typed under the names bound for '
-                                    f'position {_pos(kpos)}: binder metadata and typing disagree on which child sees the names', owner.mod.path, call.node.lineno)
-                        elif not names:
-                            ctx.bad('R5', cons, f'child `{call.recv}` (position {_pos(call.pos)}) is typed under self.{sub.func.attr}({pf.nsrc(sub.args[0])}), but the binder '
-                                    f'method binds no name for that position: the renderer scopes the names to a different child than the one that uses them',
-                                    owner.mod.path, call.node.lineno)
-                        else:
-                            ctx.ok('R5', cons, sorted(names))
+                            ctx.info(f'{cls.name}._compute_type types child `{call.recv}` (position {_pos(call.pos)}) under self.{sub.func.attr}({pf.nsrc(sub.args[0])}) '
+                                     f'(deep_typecheck-only; see C36)')
+
+
+# ---- R5: binder positions agree with the engine (Binds.scala) --------------------------------------------------------------
+BINDS_SCALA = 'hail/hail/src/is/hail/expr/ir/Binds.scala'
+SCALA_DEFS = ('childEnvValue', 'childEnvTable', 'childEnvMatrix', 'childEnvBlockMatrix')
+NOT_IN_SCALA = {
+    'Let': 'the engine represents lets as Block(bindings, body); the IR parser builds the Block from `Let`',
+    'AggLet': 'same as Let (Block with Scope.AGG / Scope.SCAN bindings)',
+}
+
+
+def _scala_branches(S, bs: int, be: int, where: str):
+    """An arm body that is `if (i == K) e1 else if (i == M) e2 else e3` -> [(K | 'else', text)]; None when it is not such a chain."""
+    code = S.code
+    out = []
+    i = bs
+    while True:
+        while i < be and code[i] in ' \t\r\n':
+            i += 1
+        if not code.startswith('if', i) or (code[i + 2].isalnum() or code[i + 2] == '_'):
+            return None if not out else out + [('else', S.norm(i, be))]
+        j = i + 2
+        while j < be and code[j] in ' \t\r\n':
+            j += 1
+        if code[j] != '(':
+            return None
+        close = S.match_bracket(j)
+        cond = S.norm(j + 1, close)
+        k = close + 1
+        start = k
+        depth_else = None
+        while k < be:
+            c = code[k]
+            if c in '([{':
+                k = S.match_bracket(k) + 1
+                continue
+            if code.startswith('else', k) and not (code[k - 1].isalnum() or code[k - 1] == '_') and not (code[k + 4].isalnum() or code[k + 4] == '_'):
+                depth_else = k
+                break
+            k += 1
+        text = S.norm(start, depth_else if depth_else is not None else be)
+        out.append((cond, text))
+        if depth_else is None:
+            return out
+        i = depth_else + 4
+
+
+def _scala_index(cond: str, pattern_args: List[str]):
+    """`i == 2` -> ('c', 2); `i == as.length` -> ('lenarg', position of `as` in the constructor pattern); else None."""
+    parts = cond.replace('(', ' ').replace(')', ' ').split()
+    if len(parts) == 3 and parts[0] == 'i' and parts[1] == '==':
+        if parts[2].isdigit():
+            return ('c', int(parts[2]))
+        if parts[2].endswith('.length') and parts[2][:-7] in pattern_args:
+            return ('lenarg', pattern_args.index(parts[2][:-7]))
+    return None
+
+
+def _binds_names(text: str) -> bool:
+    """Does a Bindings(...) expression bind variables (as opposed to only switching aggregation environments)?"""
+    toks = text.replace('(', ' ').replace(')', ' ').replace(',', ' ').replace('.', ' ').split()
+    return '->' in toks or 'zip' in toks or any(tk.endswith('Bindings') and tk != 'Bindings' for tk in toks)
+
+
+def scala_binder_table() -> Dict[str, Tuple[List, bool, int]]:
+    """class -> ([(index | 'else', binds names?)], decided?, line).  index is ('c', k) or ('lenarg', pattern position)."""
+    from engines import scalalite as sl
+    S = sl.load(BINDS_SCALA)
+    out: Dict[str, Tuple[List, bool, int]] = {}
+    for d in SCALA_DEFS:
+        _start, lo, hi, _sig = S.find_def(d)
+        pos = S.code.find('match', lo, hi)
+        brace = S.code.find('{', pos, hi) if pos >= 0 else -1
+        if brace < 0:
+            raise AnalysisError(f'{BINDS_SCALA}::{d}: `ir match {{` not found')
+        end = S.match_bracket(brace)
+        for pat, bs, be in S.case_arms(brace + 1, end):
+            if '(' not in pat:
+                continue
+            name = pat[:pat.index('(')].strip()
+            close = pat.rindex(')')
+            # split the guard off: `Name(args) if <guard>`
+            depth = 0
+            k = pat.index('(')
+            for k in range(pat.index('('), len(pat)):
+                if pat[k] in '([':
+                    depth += 1
+                elif pat[k] in ')]':
+                    depth -= 1
+                    if depth == 0:
+                        break
+            args = [a.strip() for a in pat[pat.index('(') + 1:k].split(',')]
+            guard = pat[k + 1:].strip()
+            line = S.line_of(bs)
+            if guard:
+                if not guard.startswith('if '):
+                    raise AnalysisError(f'{BINDS_SCALA}:{line}: unrecognised arm `{pat}`')
+                idx = _scala_index(guard[3:], args)
+                if idx is None:
+                    out[name] = ([], False, line)
+                else:
+                    out[name] = ([(idx, _binds_names(S.norm(bs, be)))], True, line)
+                continue
+            chain = _scala_branches(S, bs, be, f'{BINDS_SCALA}:{line}')
+            if chain is None:
+                out[name] = ([], False, line)
+                continue
+            branches = []
+            decided = True
+            for cond, text in chain:
+                if cond == 'else':
+                    branches.append(('else', _binds_names(text)))
+                else:
+                    idx = _scala_index(cond, args)
+                    if idx is None:
+                        decided = False
+                    branches.append((idx, _binds_names(text)))
+            out[name] = (branches, decided, line)
+    return out
+
+
+def check_scala_positions(ctx: Ctx, t: ic.Table) -> None:
+    table = scala_binder_table()
+    ctx.unit('scala_binder_arms', len(table))
+    for cls in _binder_classes(t):
+        atoms = _all_atoms(cls, [])
+        lays = ic.layouts(cls)
+        per_pos: Dict[Tuple, Tuple[bool, str]] = {}
+        for lay in lays:
+            for fl in _vals(atoms):
+                for p, label in _positions(cls, lay, fl):
+                    b = any(ic.named(ic.binder_keys(t, cls, f, p, fl, lay)) for f in BINDER_API)
+                    per_pos[p] = (per_pos.get(p, (False, label))[0] or b, label)
+        if not any(b for b, _ in per_pos.values()):
+            continue
+        cons = f'{cls.key("renderable_bindings")}::child positions'
+        if cls.name in NOT_IN_SCALA:
+            ctx.ok('R5', cons, {'exception': NOT_IN_SCALA[cls.name]}, nontrivial=False)
+            continue
+        if cls.name not in table:
+            raise AnalysisError(f'{cons}: {cls.name} binds names but has no arm in {BINDS_SCALA} (childEnv*)')
+        branches, decided, line = table[cls.name]
+        if not decided:
+            raise AnalysisError(f'{BINDS_SCALA}:{line}: arm of {cls.name} is not an `i == K` guard or if-chain')
+        ctor = cls.resolve('__init__')[1]  # type: ignore[index]
+        problems = []
+        for p, (py_binds, label) in sorted(per_pos.items(), key=repr):
+            sc_binds = None
+            for idx, b in branches:
+                if idx == 'else':
+                    sc_binds = b
+                    break
+                if idx[0] == 'c' and p == ('c', idx[1]):
+                    sc_binds = b
+                    break
+                if idx[0] == 'lenarg' and p[0] == 'len' and p[2] == 0:
+                    sc_binds = b
+                    break
+            if sc_binds is None:
+                sc_binds = False
+            if py_binds != sc_binds:
+                problems.append(f'child {label} (position {_pos(p)}): the Python node {"binds" if py_binds else "binds no"} names for it but the engine '
+                                f'({BINDS_SCALA}:{line}) {"binds" if sc_binds else "binds no"} names there: lets are scoped against the wrong child and a '
+                                f'sub-expression using the name can be lifted above its binder')
+        if problems:
+            r = ic.binder_func(cls, 'bindings') or ic.binder_func(cls, 'agg_bindings') or ic.binder_func(cls, 'scan_bindings')
+            ctx.bad('R5', cons, problems[0] + (f' (+{len(problems) - 1} more)' if len(problems) > 1 else ''), r[0].mod.path, r[1].lineno)  # type: ignore[index]
+        else:
+            ctx.ok('R5', cons, {'scala_line': line, 'positions': {_pos(p): b for p, (b, _) in per_pos.items()}})
 
 
 def _pos(p) -> str:
@@ -363,7 +534,7 @@ def check_context_switch(ctx: Ctx, t: ic.Table) -> None:
         cons2 = cls.key('renderable_agg_bindings/renderable_scan_bindings')
         bf = ic.binder_func(cls, 'agg_bindings') or ic.binder_func(cls, 'scan_bindings')
         problems = []
-        for fl in ic.valuations([a for a in batoms if a != SC]):
+        for fl in _vals([a for a in batoms if a != SC]):
             for p, label in positions:
                 ag_f = ic.binder_keys(t, cls, 'agg_bindings', p, {**fl, SC: False}, lay)
                 ag_t = ic.binder_keys(t, cls, 'agg_bindings', p, {**fl, SC: True}, lay)
@@ -649,8 +820,8 @@ def run(ctx: Ctx) -> None:
     ctx.rule('R1', 'value IR: bound_variables == names bound by renderable_(agg_|scan_)bindings, and includes super().bound_variables', 20)
     ctx.rule('R2', 'every name bound for a child is rendered by head_str', 40)
     ctx.rule('R3', 'bound names are rendered through escape_id (frozen exceptions: uid-only names)', 40)
-    ctx.rule('R4', 'binder methods: key set independent of default_value; tested child indices exist in the registered child list', 55)
-    ctx.rule('R5', '_compute_type types under self.bindings(K) exactly the child registered at position K', 20)
+    ctx.rule('R4', 'binder methods: every child index they test exists in the registered child list', 55)
+    ctx.rule('R5', 'the child positions a node binds names for are the positions the engine binds names for (Binds.scala childEnv*)', 35)
     ctx.rule('R6', 'agg/scan context switches and agg/scan bindings are mirror images under is_scan', 9)
     ctx.rule('R7', 'nodes that evaluate children in the agg/scan context reference agg_capability', 8)
     ctx.rule('R8', 'renderer passes and BaseIR wrappers consume the metadata consistently', 12)
@@ -665,6 +836,7 @@ def run(ctx: Ctx) -> None:
     check_head(ctx, t)
     check_binder_methods(ctx, t)
     check_typing_position(ctx, t)
+    check_scala_positions(ctx, t)
     check_context_switch(ctx, t)
     check_capability(ctx, t)
     check_wrappers(ctx, t)
